@@ -13,7 +13,7 @@
 //    -- observed --
 //    "inv":[{"name":..,"args":[Val..]}],             invocations of registered functions with the converted parameters
 //    "ops":[{"op":"R","threw":"none|call_error|cppcms_error|bad_cast|std|other"}],   answer operations executed
-//    "st":200,"ctype":"application/json","blen":n,"docs":[{"ok":b,"nk":3,"id":Val,"error":Val,"result":Val}],"junk":b,
+//    "st":200,"ctype":"application/json; charset=utf-8","cmt":"application/json","blen":n,"docs":[{"ok":b,"nk":3,"id":Val,"error":Val,"result":Val}],"junk":b,
 //    "text":"Invalid JSON-RPC","weof":n,"deof":n,"mainret":b,"died":false,"sig":0}
 // Val (abstract JSON value): {"k":"null"} {"k":"bool","b":true} {"k":"int","i":7} {"k":"frac","i":1}=1.5 {"k":"frac","i":2}=-0.25
 //   {"k":"big","i":1}=3000000000 {"k":"str","s":"ab"} {"k":"arr","a":[..]} {"k":"obj","m":[{"key":"a","v":Val}]} {"k":"undef"}
@@ -209,7 +209,7 @@ static Val result_value(std::string const &op,size_t pos)
 {
 	if(op.size()>1 && op[1]=='o') return VObj("a",VArr(VInt(1),VStr("x")));
 	if(op.size()>1 && op[1]=='s') return VStr("res");
-	if(op[0]=='R' || op[0]=='r') return VInt(100+pos);
+	if(op[0]=='R' || op[0]=='r' || op[0]=='A') return VInt(100+pos);
 	return VStr("e"+itos(pos));
 }
 
@@ -309,6 +309,7 @@ public:
 	void note(std::string const &op,std::string const &threw) { L g; g_obs->ops.push_back(std::make_pair(op,threw)); }
 	// in-handler part of the program: everything up to and including "rel"; "T?" leaves the handler by exception
 	//   N nothing   R/Ro/Rs return_result   E/Eo return_error   Tc/Tb/Ts throw call_error / bad_value_cast / runtime_error
+	//   A return_result unless notification()
 	//   rel release_call()    after rel: the remaining lower-case operations are run by the driver once main() has returned
 	//   (an upper-case R/E written after rel is still executed inside the handler, before returning)
 	void run_script()
@@ -316,10 +317,14 @@ public:
 		std::vector<std::string> const &sc=g_scn->script;
 		while(g_pc<sc.size()) {
 			std::string op=sc[g_pc];
-			if(op[0]=='r' && op!="rel") break;
-			if(op=="e" || op=="eo" || op=="drop") break;
+			if(op=="r" || op=="ro" || op=="e" || op=="eo" || op=="drop") break;
 			size_t pos=g_pc++;
 			if(op=="N") continue;
+			if(op=="A") {           // the well-behaved handler: answers iff the call is not a notification
+				try { if(!notification()) return_result(realval(result_value(op,pos))); note(op,"none"); }
+				catch(...) { note(op,classify_exception()); }
+				continue;
+			}
 			if(op=="Tc") { note(op,"thrown"); throw cppcms::rpc::call_error("custom failure"); }
 			if(op=="Tb") { note(op,"thrown"); throw json::bad_value_cast("handler cast"); }
 			if(op=="Ts") { note(op,"thrown"); throw std::runtime_error("handler failure"); }
@@ -345,7 +350,8 @@ static void run_later()
 	while(g_pc<sc.size()) {
 		std::string op=sc[g_pc]; size_t pos=g_pc++;
 		std::string threw="none";
-		if(op=="drop") { if(g_call) g_call.reset(); else threw="nocall"; }
+		if(op!="r" && op!="ro" && op!="e" && op!="eo" && op!="drop") threw="skipped";
+		else if(op=="drop") { if(g_call) g_call.reset(); else threw="nocall"; }
 		else if(!g_call) threw="nocall";
 		else {
 			try {
@@ -540,7 +546,8 @@ static std::string run_one(Scn const &s,std::string const &prefix)
 	std::string text;
 	if(isjson) split_docs(o->out,docs,junk);
 	else { text=o->out; while(!text.empty() && (text[text.size()-1]=='\n' || text[text.size()-1]=='\r')) text.erase(text.size()-1); if(text.size()>80) text=text.substr(0,80); }
-	r+=",\"ctype\":"+jstr(ctype)+",\"blen\":"+itos(o->out.size())+",\"docs\":[";
+	std::string cmt=ctype.substr(0,ctype.find(';')); while(!cmt.empty() && cmt[cmt.size()-1]==' ') cmt.erase(cmt.size()-1);
+	r+=",\"ctype\":"+jstr(ctype)+",\"cmt\":"+jstr(cmt)+",\"blen\":"+itos(o->out.size())+",\"docs\":[";
 	for(size_t i=0;i<docs.size();i++) { if(i) r+=","; r+=doc_log(docs[i]); }
 	r+="],\"junk\":"+std::string(junk?"true":"false")+",\"text\":"+jstr(text)+",\"body\":"+jstr(o->out.size()>200?o->out.substr(0,200):o->out)
 	  +",\"weof\":"+itos(o->weof)+",\"deof\":"+itos(o->deof)+",\"mainret\":"+(o->mainret?"true":"false")+",\"gone\":"+(o->conn_gone?"true":"false")
@@ -605,7 +612,7 @@ static std::vector<std::string> scs(char const *spec)      // "R,rel,r"
 }
 static Scn valid_call(std::string const &sig,char role,Val const &id,unsigned variant=0)
 {
-	Scn s; s.method=Field(VStr(mname(sig,role))); s.params=Field(good_params(sig,variant)); s.id=Field(id); s.script=sc1("R");
+	Scn s; s.method=Field(VStr(mname(sig,role))); s.params=Field(good_params(sig,variant)); s.id=Field(id); s.script=sc1("A");
 	return s;
 }
 
@@ -638,7 +645,7 @@ static void fam_shape(std::vector<Scn> &out)
 	Field meths[6]={Field(),Field(VInt(5)),Field(VNull()),Field(VStr("nosuch")),Field(VStr("")),Field(VArr(VStr("m__a")))};
 	Field pars[5]={Field(),Field(VObj("a",VInt(1))),Field(VStr("x")),Field(VNull()),Field(VArr())};
 	for(int m=0;m<6;m++) for(int p=0;p<5;p++) for(size_t i=0;i<=ids.size();i++) {
-		Scn s; s.method=meths[m]; s.params=pars[p]; s.id = i<ids.size() ? Field(ids[i]) : Field(); s.script=sc1("R"); s.extra=(m+p+i)%4==0;
+		Scn s; s.method=meths[m]; s.params=pars[p]; s.id = i<ids.size() ? Field(ids[i]) : Field(); s.script=sc1("A"); s.extra=(m+p+i)%4==0;
 		s.app=(m+p+i)%2?"async":"sync";
 		out.push_back(s);
 	}
@@ -669,7 +676,7 @@ static void fam_shape(std::vector<Scn> &out)
 		}
 	}
 }
-static const char *SCRIPTS[]={"N","R","E","Ro","Eo","Rs","R,R","R,E","E,R","E,E","R,R,R","Tc","Tb","Ts","R,Ts","R,Tc","E,Tb","R,Tb","N,Ts",
+static const char *SCRIPTS[]={"A","N","R","E","Ro","Eo","Rs","R,R","R,E","E,R","E,E","R,R,R","Tc","Tb","Ts","R,Ts","R,Tc","E,Tb","R,Tb","N,Ts",
 	"rel,r","rel,e","rel,ro","rel,r,r","rel,r,e","rel,e,r","rel,e,e","rel,drop","rel","rel,r,drop","rel,R","rel,E,r","rel,Ts,r","rel,Tc","rel,Ts","R,rel,r","R,rel","R,rel,drop","E,rel,e",
 	"rel,rel,r","rel,r,r,r",0};
 static void fam_script(std::vector<Scn> &out)
@@ -697,12 +704,12 @@ static void fam_rand(std::vector<Scn> &out,long count,vt::rng &r)
 		std::string sig=SIGS[r(nsig)]; char role=ROLES[r(3)];
 		Scn s=valid_call(sig,role,ids[r(ids.size())],r(64));
 		s.app=r(2)?"async":"sync"; s.smd=r.chance(1,4); s.extra=r.chance(1,5);
-		s.script=scs(SCRIPTS[r.chance(1,2)?1:r(nscr)]);
+		s.script=scs(SCRIPTS[r.chance(1,2)?0:r(nscr)]);
 		if(r.chance(1,8)) s.id=Field();
 		if(r.chance(1,10)) s.ct=CTS[r(ncts)];
 		if(r.chance(1,12)) { static const char *h[]={"GET","PUT","HEAD","post","DELETE"}; s.http=h[r(5)]; }
 		if(r.chance(1,12)) {
-			static const char *bad[]={"","{","[]","7","\"m__a\"","null","{\"method\":\"m__a\",\"params\":[],\"id\":1,}","{\"method\":\"m__a\" \"params\":[],\"id\":1}","{'method':'m__a','params':[],'id':1}","{\"method\":\"m__a\",\"params\":[],\"id\":1}}","true"};
+			static const char *bad[]={"","{","[]","7","\"m__a\"","null","{\"method\":\"m__a\",\"params\":[],\"id\":1","{\"method\":\"m__a\" \"params\":[],\"id\":1}","{'method':'m__a','params':[],'id':1}","{\"method\":\"m__a\",\"params\":[],\"id\":1}}","true"};
 			unsigned k=r(11); s.rawbody=bad[k]; s.bk = k==0 ? "empty" : (k==2||k==3||k==4||k==5||k==10) ? "nonobj" : "malformed";
 		}
 		if(r.chance(1,10)) { Field m[5]={Field(),Field(VInt(5)),Field(VStr("nosuch")),Field(VStr("m_is_x")),Field(VBool(true))}; s.method=m[r(5)]; }
@@ -792,7 +799,7 @@ int main(int argc,char **argv)
 		int sig = WIFSIGNALED(st) ? WTERMSIG(st) : 0;
 		FILE *f=fopen(outpath,"a");
 		std::string prefix = g_sh->len>0 ? std::string(g_sh->pending,g_sh->len) : input_log(list[at<(long)list.size()?at:list.size()-1],at);
-		fprintf(f,"%s,\"inv\":[],\"ops\":[],\"st\":0,\"ctype\":\"\",\"blen\":0,\"docs\":[],\"junk\":false,\"text\":\"\",\"body\":\"\",\"weof\":0,\"deof\":0,\"mainret\":false,\"gone\":false,\"hang\":%s,\"died\":true,\"sig\":%d}\n",
+		fprintf(f,"%s,\"inv\":[],\"ops\":[],\"st\":0,\"ctype\":\"\",\"cmt\":\"\",\"blen\":0,\"docs\":[],\"junk\":false,\"text\":\"\",\"body\":\"\",\"weof\":0,\"deof\":0,\"mainret\":false,\"gone\":false,\"hang\":%s,\"died\":true,\"sig\":%d}\n",
 			prefix.c_str(),sig==SIGALRM?"true":"false",sig?sig:(WIFEXITED(st)?1000+WEXITSTATUS(st):-1));
 		fclose(f);
 		start=at+1;
